@@ -24,7 +24,7 @@ CONSTANTS DataFns,         \* save functions dispatching on the data-io registry
           ProjectFormats,  \* registered project-io format names
           Unknown,         \* a format name registered nowhere
           Failing,         \* a registered format whose plugin raises after a partial write
-          TStates          \* subset of {"absent","file","emptydir","nonemptydir","noparent"}
+          TStates          \* subset of {"absent","file","emptydir","nonemptydir","subdironly","noparent"}
 
 VARIABLES pc,    \* "idle" "protect" "lookup" "write" "update" "done" "raised"
           call,  \* [fn, fmt, ts, allow, infer]
@@ -45,8 +45,10 @@ InitFs(ts) ==
   [p \in Paths |->
      CASE p = "parent"  -> IF ts = "noparent" THEN Absent ELSE Dir
        [] p = "target"  -> IF ts = "file" THEN File(2)
-                           ELSE IF ts \in {"emptydir", "nonemptydir"} THEN Dir ELSE Absent
-       [] p = "child"   -> IF ts = "nonemptydir" THEN File(3) ELSE Absent
+                           ELSE IF ts \in {"emptydir", "nonemptydir", "subdironly"} THEN Dir ELSE Absent
+       [] p = "child"   -> IF ts = "nonemptydir" THEN File(3)
+                           ELSE IF ts = "subdironly" THEN [kind |-> "dir", tok |-> 3]      \* the folder holds nothing but a sub folder (with content)
+                           ELSE Absent
        [] p = "sibling" -> File(1)
        [] p = "out"     -> Absent]
 
